@@ -243,7 +243,7 @@ func (g *tmplGen) elem(cond string) *TNode {
 		nd = 1 + g.r.Intn(2)
 	}
 	for i := 0; i < nd; i++ {
-		n := g.r.Pick([]string{"title", "class", "href", "data-a", "value", "viewBox", "onClick"})
+		n := g.r.Pick([]string{"title", "class", "href", "data-a", "value", "viewBox", "onClick", "checked", "disabled", "selected", "open", "hidden", "Checked"}) // boolean attributes of HTML are ordinary names here
 		if g.r.Chance(8) {
 			// directive names are case-sensitive: these are ordinary dynamic attributes
 			n = g.r.Pick([]string{"Text", "TEXT", "Raw", "If", "Range", "Remove", "With", "Insert"})
